@@ -29,7 +29,10 @@ import (
 
 var c09DML = []string{"Insert", "Delete", "DropCollection", "DropPartition", "Import"}
 
-var c09Shapes = []string{"none", "exact", "whole-db", "unrelated-other-db", "unrelated-same-db", "exact+whole-db"}
+var c09Shapes = []string{"none", "exact", "whole-db", "unrelated-other-db", "unrelated-same-db", "exact+whole-db", "identity-exact+whole-db"}
+
+// c09Both: shapes with a collection-level AND a whole-database entry for the same source database
+func c09Both(shape string) bool { return strings.HasSuffix(shape, "exact+whole-db") }
 
 type c09Cell struct {
 	Kind    string            `json:"kind"` // op-message kind, event kind, or "DML:<type>"
@@ -55,6 +58,9 @@ func c09Mapping(shape, db, coll string, r *randSrc) map[string]string {
 		return map[string]string{sdb + ".other_" + coll: t2 + "." + x}
 	case "exact+whole-db":
 		return map[string]string{sdb + "." + coll: t1 + "." + x, sdb + ".*": t2 + ".*"}
+	case "identity-exact+whole-db":
+		// one collection pinned in place (mapped to itself) while the rest of its database moves
+		return map[string]string{sdb + "." + coll: sdb + "." + coll, sdb + ".*": t2 + ".*"}
 	}
 	return map[string]string{}
 }
@@ -90,7 +96,7 @@ func (k *c09Checker) names(callKind, dbField, gotDB string, dbOptional bool, col
 	// the exact+whole-db shape: one defect, one key — a component that carries what the whole-database entry
 	// alone would give means the whole-database entry was preferred over the collection-level entry
 	order := false
-	if k.cell.Shape == "exact+whole-db" {
+	if c09Both(k.cell.Shape) {
 		if !dbOK && normDB(gotDB) == k.wdb && k.wdb != k.edb {
 			order, dbOK = true, true
 		}
@@ -227,7 +233,7 @@ func runC09(tier string) *vf.Run {
 		for _, db := range []string{"", "default", "d1", "d2"} {
 			for _, shape := range c09Shapes {
 				reps := fillings
-				if shape == "exact+whole-db" {
+				if c09Both(shape) {
 					reps = bothReps
 				}
 				for rep := 0; rep < reps; rep++ {
@@ -291,7 +297,7 @@ func c09RunCell(run *vf.Run, disp *msgstream.ProtoUnmarshalDispatcher, cell c09C
 	run.Eval(1)
 	run.Distinct("cells", cell.Kind+"|"+cell.DB+"|"+cell.Shape)
 	run.Nontrivial(cell.Kind + "|" + cell.DB + "|" + cell.Shape)
-	if cell.Shape == "exact+whole-db" {
+	if c09Both(cell.Shape) {
 		run.Count("both_shape_reps", 1)
 	}
 	if cell.Rep == 0 && cell.Kind == "ReleasePartitions" && cell.DB == "d1" && cell.Shape == "whole-db" {
@@ -306,7 +312,7 @@ func c09RunCell(run *vf.Run, disp *msgstream.ProtoUnmarshalDispatcher, cell c09C
 	ref := nameMap(cell.Mapping)
 	k := &c09Checker{run: run, cell: cell, ref: ref}
 	k.edb, k.ecoll, k.how = ref.ref(cell.DB, cell.Coll)
-	if cell.Shape == "exact+whole-db" {
+	if c09Both(cell.Shape) {
 		wm := nameMap{}
 		for s, t := range cell.Mapping {
 			if strings.HasSuffix(s, ".*") {
